@@ -84,7 +84,7 @@ let hook_for hooks sid outs =
   (* the message resubmitted by the nack handler for this event's NACK, if any *)
   List.fold_left (fun acc o ->
     match acc, o with
-    | None, NsNack (r, mid, _) when (int_of_z r = 0 || int_of_z r = 2) ->
+    | None, NsNack (r, mid, true) when (int_of_z r = 0 || int_of_z r = 2) ->
         (match List.find_opt (fun (s, m, _, _, used) -> s = sid && m = int_of_z mid && not !used) !hooks with
          | Some (_, _, nm, nt, used) -> used := true;
              Some { ns_con = true; ns_mid = z_of_int nm; ns_tok = z_of_int nt }
@@ -263,7 +263,7 @@ let nsbound toks =
       let bad = ref [] in
       for k = n - 1 downto 0 do
         let t = List.map (fun (e, o) -> (NsfEv e, o)) traces.(k) in
-        match nsb_run (fst cfgs.(k)) [] t Z0 with
+        match nsb_run (fst cfgs.(k)) { nsb_open = true; nsb_est = snd cfgs.(k); nsb_infl = [] } t Z0 with
         | None -> ()
         | Some j -> bad := Printf.sprintf "bad sid=%d op=%d" k (List.nth idx.(k) (int_of_z j)) :: !bad
       done;
